@@ -426,7 +426,14 @@ def valid_case(draw):
         P = so['params']
         c = dict(solver=so['solver'], params=P, t=so['tau'] * P['alpha'] / (4 * ASOL * CL * P['opac']), x=[so['x'] / (RT3 * P['opac']), 0.0])
     c['fam'] = fam
+    # one point in three requests lies very close to the origin / surface / piston face (a valid position like any other; the Su-Olson transforms
+    # lost their bracket for x ~ 1e-6 mean free paths, repaired in 8b722ca)
+    if fam in SQUEEZABLE and draw(st.integers(0, 2)) == 0:
+        c['squeeze'] = draw(logu(1e-9, 1e-2))
     return c
+
+
+SQUEEZABLE = ('suolson', 'noh', 'noh2', 'rod', 'hutchens1', 'sdrz', 'piston', 'sedov', 'rmtv', 'bbnoh')     # (domains that start at 0; Coggeshall shells do not)
 
 
 def check_valid(case):
@@ -437,8 +444,13 @@ def check_valid(case):
     with warnings.catch_warnings():
         warnings.simplefilter('ignore')
         s = cat.make_solver(case)
-        x = np.asarray(case.get('x', [1.0]), float)
+        x = np.array(case.get('x', [1.0]), float)
         t = case['t']
+        if case.get('squeeze') and x.ndim == 1 and x.size > 1:
+            nz = [i for i in range(x.size) if x[i] != 0.0 and i != int(np.argmax(np.abs(x)))]      # (the largest position stays: the piston takes it as xmax)
+            j = nz[0] if nz else 0
+            x[j] *= case['squeeze']
+            o.label('point within 1e-2 .. 1e-9 of the origin')
         if fam == 'piston':
             if not (s.wv_pl < s.wv_el):
                 return o
